@@ -68,6 +68,8 @@ def main():
             rel = os.path.relpath(path, REPO)
             name = rel[len('stdnum/'):-3].replace('/', '.')
             src = open(path).read()
+            if os.environ.get('MUT_ONLY') and name not in os.environ['MUT_ONLY'].split(','):
+                continue
             if 'def validate(' not in src:
                 continue
             new = mutate(src)
